@@ -1,6 +1,7 @@
 package main
 
 import (
+	"fmt"
 	"go/ast"
 	"go/parser"
 	"go/token"
@@ -25,7 +26,9 @@ type pkg struct {
 func (p *pkg) pos(n ast.Node) string { return p.fset.Position(n.Pos()).String() }
 
 func (p *pkg) failAt(n ast.Node, format string, args ...interface{}) {
-	fatalf(p.pos(n)+": "+format, args...)
+	// inside a translation this is caught per function (gen.go: summaryOf); at
+	// load time main turns it into a fatal error
+	panic(transErr{fmt.Sprintf(p.pos(n)+": "+format, args...)})
 }
 
 func funcKey(fd *ast.FuncDecl) string {
